@@ -11,6 +11,7 @@ Only property theorems live here (helper lemmas: `Lemmas/Labels*.lean`, `Lemmas/
 `Lemmas/NameTree.lean`).
 -/
 import PdfVerif.Lemmas.Labels
+import PdfVerif.Lemmas.Outline
 
 namespace PdfVerif.Props.C17
 open PdfVerif PdfVerif.Labels PdfVerif.Gen.LabelTables
@@ -29,19 +30,8 @@ theorem pdfdoc_table_spec (c : UInt8) (u : Nat) (h : Spec.Labels.pdfDoc c.toNat 
 /-- `decode_text`: a string with a byte-order mark is decoded as UTF-16BE (surrogate pairs
 combined), any other string through PDFDocEncoding — on every string in the domain of the
 specification (well-formed UTF-16, defined codes). -/
-theorem decode_text_spec (s : Bytes) (t : Text) (h : Spec.Labels.text s = some t) : decodeText s = t := by
-  unfold Spec.Labels.text at h
-  unfold decodeText
-  split at h
-  · rename_i hb
-    simp only [hb, if_true]
-    simp only [Option.bind_eq_some_iff] at h
-    obtain ⟨us, hus, hut⟩ := h
-    rw [units_of_exact _ us hus]
-    exact decodeUnits_of_utf16 us t hut
-  · rename_i hb
-    simp only [hb]
-    exact map_of_mapM_doc s t h
+theorem decode_text_spec (s : Bytes) (t : Text) (h : Spec.Labels.text s = some t) : decodeText s = t :=
+  decodeText_of_spec s t h
 
 /-- Non-vacuity: a UTF-16BE string with a surrogate pair and a PDFDocEncoding string with codes
 from the 0x18–0x1F and 0x80–0xA0 blocks are in the domain. -/
@@ -102,5 +92,58 @@ theorem alpha_partial (n : Nat) (h0 : 0 < n) (h1 : n ≤ 26) :
   rw [hn, Bool.false_or] at h
   rw [eq_of_isOk h]
   simp [Spec.Labels.alpha, h0, Except.toOption]
+
+/-! ## Outlines (ISO 32000-1 12.3.3) -/
+
+section Outline
+open PdfVerif.Outline PdfVerif.Spec.Outline PdfVerif.Lemmas.Outline
+
+/-- `search` over the First/Next representation of ANY forest (any fan-out, any depth), started
+at any level, yields exactly the items in document order (preorder) with their nesting levels
+and decoded titles.  By induction over the forest. -/
+theorem C17_outline_forest (forest : List OTree) (lvl : Nat) (items : List Item)
+    (h : (preForest lvl forest).mapM id = some items) :
+    search (encForest forest) lvl = items := by
+  have hl := mapM_id_some _ _ h
+  have hdom : ∀ o ∈ preForest lvl forest, o.isSome = true := by
+    intro o ho
+    rw [hl] at ho
+    obtain ⟨x, _, rfl⟩ := List.mem_map.mp ho
+    rfl
+  have := search_encForest forest lvl hdom
+  rw [hl] at this
+  exact map_some_inj _ _ this
+
+/-- `get_outlines()` on the `Outlines` dictionary of a forest: top-level items have level 1. -/
+theorem C17_outline (forest : List OTree) (items : List Item)
+    (h : Spec.Outline.outline forest = some items) :
+    getOutlines (encRoot forest) = items := by
+  have h1 := C17_outline_forest forest 1 items h
+  unfold getOutlines encRoot
+  cases forest with
+  | nil =>
+    simp [Spec.Outline.outline, preForest] at h
+    simp [search, visible, h]
+  | cons t ts =>
+    simp only [search, visible, List.isEmpty_cons, Bool.not_false, if_true, List.nil_append, List.append_nil]
+    exact h1
+
+/-- Non-vacuity: a forest with two levels, a UTF-16 title and both kinds of target is in the
+domain, and the model lists it in document order. -/
+example :
+    let f : List OTree :=
+      [.mk { title := some [65], dest := some 1 }
+          [.mk { title := some [0xFE, 0xFF, 0x4E, 0x2D], a := some 2 } [],
+           .mk { title := some [66], dest := some 3, se := some 9 } []],
+       .mk { title := some [67], a := some 4 } []]
+    Spec.Outline.outline f = some
+      [⟨1, [65], some 1, none, none⟩, ⟨2, [0x4E2D], none, some 2, none⟩,
+       ⟨2, [66], some 3, none, some 9⟩, ⟨1, [67], none, some 4, none⟩]
+    ∧ getOutlines (encRoot f) =
+      [⟨1, [65], some 1, none, none⟩, ⟨2, [0x4E2D], none, some 2, none⟩,
+       ⟨2, [66], some 3, none, some 9⟩, ⟨1, [67], none, some 4, none⟩] := by
+  decide +kernel
+
+end Outline
 
 end PdfVerif.Props.C17
